@@ -219,6 +219,7 @@ func (r *Report) writeEvidence(verifDir string, seed int64, nViol, nUndec, nKnow
 	nontriv := map[string]bool{}
 	closed := 0
 	ledger := 0
+	var ledgerAssumed []string
 	for _, o := range r.Obls {
 		byRule[o.Rule]++
 		if o.Status == StOK || o.Status == StLedger {
@@ -227,6 +228,9 @@ func (r *Report) writeEvidence(verifDir string, seed int64, nViol, nUndec, nKnow
 		}
 		if o.Status == StLedger {
 			ledger++
+			if strings.Contains(o.By, "no machine-checked fact") {
+				ledgerAssumed = append(ledgerAssumed, o.Key)
+			}
 		}
 		if !o.Trivial {
 			nontriv[o.Key] = true
@@ -256,6 +260,8 @@ func (r *Report) writeEvidence(verifDir string, seed int64, nViol, nUndec, nKnow
 		"obligations":         len(r.Obls),
 		"discharged":          closed,
 		"ledger_entries":      ledger,
+		"ledger_assumptions":  len(ledgerAssumed),
+		"ledger_assumed_keys": ledgerAssumed,
 		"open":                nViol,
 		"undecided":           nUndec,
 		"known_findings":      nKnown,
